@@ -66,8 +66,79 @@ fi
 TIER="$ARG2"
 case "$TIER" in quick) WD=1200;; thorough) WD=5400;; *) echo "unknown tier $TIER" >&2; exit 2;; esac
 export VERIF_TIER="$TIER"
+
+# --- thorough tier: coverage-guided libFuzzer campaigns with the same oracles inside the targets ---
+fuzz_targets_for() {
+  case "$1" in
+    C02|C14) echo "fz_session";;
+    C05) echo "fz_receiver";;
+    C09|C12) echo "fz_deser";;
+    C13) echo "fz_deser fz_open fz_receiver";;
+    *) echo "";;
+  esac
+}
+run_fuzz() {
+  local targets; targets="$(fuzz_targets_for "$ID")"
+  [[ -z "$targets" ]] && return 0
+  if [[ "$TREE" != "/repo" ]]; then echo "note: fuzz campaigns only run against /repo; skipped for $TREE" >&2; return 0; fi
+  local FT="$VERIF_TARGET_BASE/fuzz" FW="$VERIF_TARGET_BASE/fuzzwork/$ID"
+  local secs="${VERIF_FUZZ_SECONDS:-150}" seed="${VERIF_SEED:-1}"; [[ "$seed" == "0" ]] && seed=1
+  (
+    flock 8
+    if ! (cd "$ROOT" && RUSTFLAGS="--cfg hpke_verif" cargo +nightly fuzz build -s none --fuzz-dir fuzz --target-dir "$FT" >"$FT.build.log" 2>&1); then
+      echo "INFRA fuzz build failed (see $FT.build.log)" >&2; tail -n 20 "$FT.build.log" >&2; exit 2
+    fi
+  ) 8>"$VERIF_TARGET_BASE/.fuzz.lock" || return 2
+  rm -rf "$FW"; mkdir -p "$FW"
+  local stats="$FW/stats.json"; echo "[" > "$stats"; local first=1 rc=0
+  for t in $targets; do
+    local bin="$FT/x86_64-unknown-linux-gnu/release/$t" corpus="$FW/$t.corpus" art="$FW/$t.artifacts/"
+    mkdir -p "$corpus" "$art"
+    "$HV" fuzz-seeds "$t" "$corpus"
+    local maxlen=512; [[ "$t" == "fz_open" ]] && maxlen=4096
+    # a time budget running out means "nothing found in budget", never a verdict
+    timeout --signal=KILL $((secs + 120)) "$bin" -fork=16 -max_total_time="$secs" -seed="$seed" -len_control=0 -max_len="$maxlen" \
+        -timeout=60 -rss_limit_mb=4096 -artifact_prefix="$art" "$corpus" >"$FW/$t.log" 2>&1
+    local execs; execs="$(grep -oE '^#[0-9]+' "$FW/$t.log" | tail -n1 | tr -d '#')"; execs="${execs:-0}"
+    local ncorp; ncorp="$(find "$corpus" -type f | wc -l)"
+    # how many corpus entries decode to non-trivial cases, measured in-process outside libFuzzer
+    local nt; nt="$(find "$corpus" -type f -print0 | xargs -0 -r "$HV" fuzz-replay "$t" 2>/dev/null | grep -oE 'nontrivial=[0-9]+' | cut -d= -f2 | awk '{s+=$1} END {print s+0}')"
+    [[ $first -eq 1 ]] || echo "," >> "$stats"; first=0
+    echo "{\"target\": \"$t\", \"engine\": \"libFuzzer -fork=16, no sanitizer, debug assertions on\", \"seconds\": $secs, \"executions\": $execs, \"final_corpus\": $ncorp, \"nontrivial_corpus_entries\": ${nt:-0}}" >> "$stats"
+    # artifacts are re-decoded and re-checked outside libFuzzer: only a reproduced oracle failure counts
+    local arts; arts="$(find "$art" -type f 2>/dev/null | head -n 20)"
+    if [[ -n "$arts" ]]; then
+      local rep; rep="$(echo "$arts" | xargs "$HV" fuzz-replay "$t" 2>&1)"
+      local mine; mine="$(echo "$rep" | grep -A1 "^FUZZ-VIOLATION property=$ID " | head -n 2)"
+      if [[ -n "$mine" ]]; then
+        local casejson; casejson="$(echo "$mine" | grep '^FUZZ-CASE ' | head -n1 | cut -c11-)"
+        local sig; sig="$(echo "$mine" | head -n1 | grep -oE 'signature=[^ ]+' | cut -d= -f2)"
+        local out="$ROOT/replays/$ID-fuzz-$(echo "$casejson" | sha256sum | cut -c1-16).json"
+        printf '{"property": "%s", "signature": "%s", "phase": "fuzz:%s", "message": %s, "case": %s}\n' "$ID" "$sig" "$t" "$(echo "$mine" | head -n1 | python3 -c 'import json,sys; print(json.dumps(sys.stdin.read().strip()))')" "$casejson" > "$out"
+        echo "]" >> "$stats"
+        echo "VIOLATION property=$ID replay=$out"
+        echo "  found by libFuzzer target $t; $(echo "$mine" | head -n1 | cut -c1-600)"
+        return 1
+      elif echo "$rep" | grep -q '^FUZZ-VIOLATION'; then
+        echo "note: fuzz target $t found a violation of another property: $(echo "$rep" | grep '^FUZZ-VIOLATION' | head -n1 | cut -c1-300)" >&2
+      else
+        echo "INFRA fuzz target $t left artifacts that do not reproduce outside libFuzzer (timeout/OOM?): $(echo "$arts" | head -n 3 | tr '\n' ' ')" >&2
+        rc=2
+      fi
+    fi
+  done
+  echo "]" >> "$stats"
+  export VERIF_FUZZ_STATS="$stats"
+  return $rc
+}
+if [[ "$TIER" == "thorough" && "${VERIF_NO_FUZZ:-0}" != "1" ]]; then
+  run_fuzz; frc=$?
+  if [[ $frc -eq 1 ]]; then exit 1; fi
+  if [[ $frc -eq 2 ]]; then FUZZ_INFRA=1; fi
+fi
 timeout --signal=KILL "$WD" "$HV" check "$ID" "$TIER"
 rc=$?
 if [[ $rc -eq 137 ]]; then echo "INFRA watchdog: $ID $TIER exceeded ${WD}s" >&2; exit 2; fi
 if [[ $rc -ne 0 && $rc -ne 1 ]]; then exit 2; fi
+if [[ $rc -eq 0 && "${FUZZ_INFRA:-0}" == "1" ]]; then exit 2; fi
 exit $rc
